@@ -84,7 +84,7 @@ impl Pattern {
         let pattern = pattern.trim_end_matches('$');
         let pattern = pattern.to_string();
 
-        let anchored_regex = "^".to_string() + &pattern + "$";
+        let anchored_regex = "^".to_string() + &Self::group(&pattern) + "$";
         let anchored_regex = Regex::new(anchored_regex.as_str(), opts.case_insensitive);
         // the pattern must match whole leading components of the path, not just some leading
         // characters of it, otherwise `/foo` would also match the prefix of `/foobar/`
@@ -104,6 +104,39 @@ impl Pattern {
                 cause: e.to_string(),
             }),
         }
+    }
+
+    /// Anchors and other patterns are attached by string concatenation.
+    /// They must apply to the whole pattern, not only to its first or last alternative.
+    fn group(regex: &str) -> String {
+        if Self::has_top_level_alternation(regex) {
+            format!("(?:{regex})")
+        } else {
+            regex.to_string()
+        }
+    }
+
+    /// Returns true if the regular expression contains `|` outside of any group or character class
+    fn has_top_level_alternation(regex: &str) -> bool {
+        let mut escape = false;
+        let mut in_class = false;
+        let mut depth = 0;
+        for c in regex.chars() {
+            if escape {
+                escape = false;
+                continue;
+            }
+            match c {
+                '\\' => escape = true,
+                '[' if !in_class => in_class = true,
+                ']' if in_class => in_class = false,
+                '(' if !in_class => depth += 1,
+                ')' if !in_class && depth > 0 => depth -= 1,
+                '|' if !in_class && depth == 0 => return true,
+                _ => {}
+            }
+        }
+        false
     }
 
     /// Creates a `Pattern` that matches literal string. Case insensitive.
@@ -295,7 +328,9 @@ impl Add<Pattern> for Pattern {
         let opts = PatternOpts {
             case_insensitive: self.case_insensitive || rhs.case_insensitive,
         };
-        Pattern::regex_with((self.to_string() + &rhs.to_string()).as_str(), &opts).unwrap()
+        let lhs = Pattern::group(&self.to_string());
+        let rhs = Pattern::group(&rhs.to_string());
+        Pattern::regex_with((lhs + &rhs).as_str(), &opts).unwrap()
     }
 }
 
